@@ -139,14 +139,16 @@ Example C11_legacy_openssl_roundtrip_inhabited :
   exists v, leg_ctor (list_ascii_of_string " v1.0.2 -beta1") = Ok v /\ leg_str v = list_ascii_of_string "1.0.2-beta1".
 Proof. eexists. split; vm_compute; reflexivity. Qed.
 
-(* openssl (the dispatch class).  Full statement:  forall s v, ossl_ctor s = Ok v -> ossl_ctor (ossl_str v) = Ok v.
-   Proved here for the values that wrap a legacy version (pre-3.0); missing: the 3.x half, which needs that the
-   printed text of a semver value of major >= 3 is again accepted by is_valid_new and rejected by the legacy
-   parser (no known base is a prefix of it); that half is covered by the correspondence run only. *)
-Theorem C11_openssl_roundtrip_partial : forall s x, ossl_ctor s = Ok (OLeg x) -> ossl_ctor (ossl_str (OLeg x)) = Ok (OLeg x).
-Proof. exact ossl_legacy_roundtrip. Qed.
+(* openssl (the dispatch class): the printed form of a constructed version constructs the same version again, for both
+   halves: a wrapped legacy value prints to a text the legacy parser reads back; a wrapped semver value (major >= 3)
+   prints to a text that is_valid_new accepts and of which no known base is a prefix *)
+Theorem C11_openssl_roundtrip : forall s v, ossl_ctor s = Ok v -> ossl_ctor (ossl_str v) = Ok v.
+Proof. exact ossl_ctor_roundtrip. Qed.
 Example C11_openssl_roundtrip_inhabited :
   exists x, ossl_ctor (list_ascii_of_string " v1.1.1 k") = Ok (OLeg x) /\ ossl_str (OLeg x) = list_ascii_of_string "1.1.1k".
+Proof. eexists. split; vm_compute; reflexivity. Qed.
+Example C11_openssl_roundtrip_inhabited_3x :
+  exists x, ossl_ctor (list_ascii_of_string " v3.1 -beta.1") = Ok (OSem x) /\ ossl_str (OSem x) = list_ascii_of_string "3.1.0-beta.1".
 Proof. eexists. split; vm_compute; reflexivity. Qed.
 
 Print Assumptions C11_generic.
@@ -164,5 +166,5 @@ Print Assumptions C11_deb_roundtrip.
 Print Assumptions C11_rpm_roundtrip.
 Print Assumptions C11_maven_conan_roundtrip.
 Print Assumptions C11_legacy_openssl_roundtrip.
-Print Assumptions C11_openssl_roundtrip_partial.
+Print Assumptions C11_openssl_roundtrip.
 Print Assumptions C11_rpm_roundtrip_refuted_without_the_hypothesis.
